@@ -763,6 +763,9 @@ class Parser:
                     part.value = self._fstring_escape.sub(unescape, part.value.replace("\r\n", "\n"))
                 except SyntaxError as e:
                     self.raise_syntax_error_known_location(e.msg, part)
+                except UnicodeEncodeError as e:
+                    # a lone surrogate right after a backslash: it cannot be part of a program
+                    self.raise_syntax_error_known_location(f"(unicode error) {e}", part)
             else:
                 if isinstance(part.format_spec, ast.JoinedStr):
                     # as in CPython, the literal parts of a format spec are not raw even if the f-string is
